@@ -676,20 +676,40 @@ func ruleImportIDOrder(c *core.Ctx) {
 		c.Fail("DOM/import-id-order", key+":reject-non-increasing", pos(c, d.Decl), failMsg)
 	}
 	// ---- the last id is seeded from the newest stored log and advanced per imported log -----------
-	if lastVar == "" {
+	// the variable compared in the refusal, as an object: an assignment to a shadowing variable of
+	// the same name does not count
+	var lastObj types.Object
+	var lastD *astx.DeclInfo
+	if orderReject != nil {
+		lastD = orderReject.D
+		fs, _ := scopeFacts(d, *orderReject)
+		for _, ft := range fs {
+			ast.Inspect(ft.Cond, func(n ast.Node) bool {
+				if id, ok := n.(*ast.Ident); ok && id.Name == lastVar && lastObj == nil {
+					lastObj = lastD.Pkg.TypesInfo.ObjectOf(id)
+				}
+				return true
+			})
+		}
+	}
+	if lastVar == "" || lastObj == nil {
 		c.Unrecognised("DOM/import-id-order", key+":last-id-tracking", pos(c, d.Decl), "the variable holding the last log id was not identified")
 	} else {
 		seeded, advanced := false, false
+		isLast := func(sd *astx.DeclInfo, e ast.Expr) bool {
+			id, ok := ast.Unparen(e).(*ast.Ident)
+			return ok && sd.Pkg.TypesInfo.ObjectOf(id) == lastObj
+		}
 		inScope(scope, func(sd *astx.DeclInfo) {
 			ast.Inspect(sd.Decl.Body, func(x ast.Node) bool {
 				switch l := x.(type) {
 				case *ast.AssignStmt:
-					if len(l.Lhs) == 1 && len(l.Rhs) == 1 && nospace(types.ExprString(l.Lhs[0])) == lastVar && strings.Contains(nospace(types.ExprString(l.Rhs[0])), ".Data[0].ID") {
+					if len(l.Lhs) == 1 && len(l.Rhs) == 1 && isLast(sd, l.Lhs[0]) && strings.Contains(nospace(types.ExprString(l.Rhs[0])), ".Data[0].ID") {
 						seeded = true
 					}
 				case *ast.ForStmt, *ast.RangeStmt:
 					ast.Inspect(l, func(y ast.Node) bool {
-						if as, ok := y.(*ast.AssignStmt); ok && len(as.Lhs) == 1 && len(as.Rhs) == 1 && nospace(types.ExprString(as.Lhs[0])) == lastVar && strings.HasSuffix(nospace(types.ExprString(as.Rhs[0])), ".ID") {
+						if as, ok := y.(*ast.AssignStmt); ok && len(as.Lhs) == 1 && len(as.Rhs) == 1 && isLast(sd, as.Lhs[0]) && strings.HasSuffix(nospace(types.ExprString(as.Rhs[0])), ".ID") {
 							advanced = true
 						}
 						return true
@@ -858,7 +878,7 @@ func ruleImportHashVerified(c *core.Ctx) {
 	rejects := scopeCalls(scope, named("newErrInvalidHash"))
 	failMsg := "importLog no longer compares the hash computed on insert with the hash carried by the imported log under HASH_LOGS=SYNC"
 	if len(rejects) == 0 || len(ins) == 0 {
-		c.Fail("DOM/import-hash-verified", key, pos(c, d.Decl), failMsg)
+		failOrGone(c, pkgCtrl, "newErrInvalidHash", "DOM/import-hash-verified", key, pos(c, d.Decl), failMsg)
 		return
 	}
 	ok, opaque, wrongFeature := false, false, false
